@@ -2,6 +2,7 @@ package main
 
 import (
 	"fmt"
+	"go/constant"
 	"go/token"
 	"go/types"
 	"sort"
@@ -932,3 +933,287 @@ func rulePLAN6(c *Ctx) []Ob {
 }
 
 var _ = token.ADD
+
+// ---------------------------------------------------------------- SORT1 / SORT2
+
+func signOf(a aval) (int, bool) {
+	v, ok := constIntOf(a)
+	if !ok {
+		return 0, false
+	}
+	switch {
+	case v < 0:
+		return -1, true
+	case v > 0:
+		return 1, true
+	}
+	return 0, true
+}
+
+// SORT1: the document comparator used by the sort node, abstractly evaluated for
+// one and two sort options over every combination of (first has field, second
+// has field, sign of Compare, direction), returns the sign the definition gives:
+// per option: absent-before-present scaled by the direction, Compare scaled by
+// the direction when both are present; the first non-zero option decides.
+func ruleSORT1(c *Ctx) []Ob {
+	o := newObs(c, "SORT1")
+	cmp := c.lookupFunc("internal", "Compare")
+	hasM := c.lookupMethod("document", "Document", "Has")
+	// the comparator: the function of the root package with a []SortOption parameter that calls Compare
+	var comp *ssa.Function
+	var optsParam *ssa.Parameter
+	for _, fn := range c.LibFuncs {
+		if c.pkgRel(fn) != "" || fn.Parent() != nil {
+			continue
+		}
+		for _, p := range fn.Params {
+			if sl, ok := p.Type().Underlying().(*types.Slice); ok && c.libNamedIs(sl.Elem(), "query", "SortOption") {
+				calls := false
+				allCalls(fn, func(call ssa.CallInstruction) {
+					if g := staticCallee(call); g != nil && c.declared(g) == cmp {
+						calls = true
+					}
+				})
+				if calls && fn.Signature.Results().Len() == 1 && isIntType(fn.Signature.Results().At(0).Type()) {
+					comp, optsParam = fn, p
+				}
+			}
+		}
+	}
+	if comp == nil || hasM == nil {
+		o.add(UNDECIDED, "comparator", "-", "document comparator (func(.., .., []SortOption) int calling internal.Compare) not found")
+		return o.list
+	}
+	var idxVal ssa.Value
+	for _, b := range comp.Blocks {
+		for _, in := range b.Instrs {
+			if ia, ok := in.(*ssa.IndexAddr); ok && ia.X == ssa.Value(optsParam) {
+				idxVal = ia.Index
+			}
+		}
+	}
+	var docParams []*ssa.Parameter
+	for _, p := range comp.Params {
+		if c.isDocPtr(p.Type()) {
+			docParams = append(docParams, p)
+		}
+	}
+	if idxVal == nil || len(docParams) != 2 {
+		o.add(UNDECIDED, "comparator", relPath(c, comp.Pos()), "comparator shape not understood")
+		return softenUndecided(o.list)
+	}
+	type opt struct {
+		fh, sh bool
+		res, d int64
+	}
+	eval := func(opts []opt) (int, string) {
+		te := c.newTagEval()
+		te.maxVisits = 8
+		cur := func(val func(ssa.Value) aval) int {
+			i, ok := constIntOf(val(idxVal))
+			if !ok || int(i) >= len(opts) || i < 0 {
+				return 0
+			}
+			return int(i)
+		}
+		te.loadHookEnv = func(l *ssa.UnOp, val func(ssa.Value) aval) (aval, bool) {
+			if c.isFieldLoadOf(l, "query", "SortOption", "Direction") {
+				return aval{K: aConst, C: constant.MakeInt64(opts[cur(val)].d)}, true
+			}
+			return aval{}, false
+		}
+		te.callHookEnv = func(call *ssa.Call, val func(ssa.Value) aval) ([]aval, bool) {
+			cc := call.Common()
+			if b, ok := cc.Value.(*ssa.Builtin); ok && b.Name() == "len" && cc.Args[0] == ssa.Value(optsParam) {
+				return []aval{{K: aConst, C: constant.MakeInt64(int64(len(opts)))}}, true
+			}
+			g := staticCallee(call)
+			if g == nil {
+				return nil, false
+			}
+			switch c.declared(g) {
+			case hasM:
+				if cc.Args[0] == ssa.Value(docParams[0]) {
+					return []aval{boolConst(opts[cur(val)].fh)}, true
+				}
+				if cc.Args[0] == ssa.Value(docParams[1]) {
+					return []aval{boolConst(opts[cur(val)].sh)}, true
+				}
+			case cmp:
+				return []aval{{K: aConst, C: constant.MakeInt64(opts[cur(val)].res)}}, true
+			}
+			return nil, false
+		}
+		outs := te.Eval(comp, make([]aval, len(comp.Params)), 0)
+		if len(outs) == 0 {
+			return 0, "no outcome"
+		}
+		sign := 0
+		for i, oc := range outs {
+			if oc.Panic {
+				return 0, "panic: " + oc.Why
+			}
+			s, ok := signOf(oc.Vals[0])
+			if !ok {
+				return 0, "result not decided by the injected outcomes (" + oc.Vals[0].String() + ")"
+			}
+			if i > 0 && s != sign {
+				return 0, "result differs between paths"
+			}
+			sign = s
+		}
+		return sign, ""
+	}
+	want := func(opts []opt) int {
+		for _, op := range opts {
+			v := int64(0)
+			switch {
+			case !op.fh && op.sh:
+				v = -op.d
+			case op.fh && !op.sh:
+				v = op.d
+			case op.fh && op.sh:
+				v = op.res * op.d
+			}
+			if v < 0 {
+				return -1
+			}
+			if v > 0 {
+				return 1
+			}
+		}
+		return 0
+	}
+	var all []opt
+	for _, fh := range []bool{false, true} {
+		for _, sh := range []bool{false, true} {
+			for _, r := range []int64{-1, 0, 1} {
+				for _, d := range []int64{1, -1} {
+					all = append(all, opt{fh, sh, r, d})
+				}
+			}
+		}
+	}
+	pos := relPath(c, comp.Pos())
+	bad, undec, n := "", "", 0
+	for _, a := range all {
+		n++
+		got, why := eval([]opt{a})
+		if why != "" {
+			undec = why
+			continue
+		}
+		if got != want([]opt{a}) {
+			bad = fmt.Sprintf("one option {first has=%v, second has=%v, compare=%d, direction=%d}: sign %d, definition %d", a.fh, a.sh, a.res, a.d, got, want([]opt{a}))
+		}
+	}
+	key := c.fname(comp) + "/one sort option (24 cases)"
+	switch {
+	case bad != "":
+		o.add(VIOLATED, key, pos, "%s", bad)
+	case undec != "":
+		o.add(UNDECIDED, key, pos, "%s", undec)
+	default:
+		o.add(OK, key, pos, "sign of the result equals the definition in all %d cases (negative direction reverses; absent sorts before present)", n)
+	}
+	bad, undec, n = "", "", 0
+	for _, a := range all {
+		for _, b := range all {
+			n++
+			got, why := eval([]opt{a, b})
+			if why != "" {
+				undec = why
+				continue
+			}
+			if got != want([]opt{a, b}) {
+				bad = fmt.Sprintf("two options {%v %v %d %d},{%v %v %d %d}: sign %d, definition %d (the first non-zero option must decide)", a.fh, a.sh, a.res, a.d, b.fh, b.sh, b.res, b.d, got, want([]opt{a, b}))
+			}
+		}
+	}
+	key = c.fname(comp) + "/two sort options (576 cases)"
+	switch {
+	case bad != "":
+		o.add(VIOLATED, key, pos, "%s", bad)
+	case undec != "":
+		o.add(UNDECIDED, key, pos, "%s", undec)
+	default:
+		o.add(OK, key, pos, "lexicographic: the first option with a non-zero result decides, in all %d cases", n)
+	}
+	return softenUndecided(o.list)
+}
+
+// SORT2: the sort-option normaliser maps a negative direction to -1 and zero or
+// positive to +1 (abstract evaluation over the sign of the input direction,
+// observing the constant stored into the Direction of what it appends).
+func ruleSORT2(c *Ctx) []Ob {
+	o := newObs(c, "SORT2")
+	var norm *ssa.Function
+	var optsParam *ssa.Parameter
+	for _, fn := range c.LibFuncs {
+		if c.pkgRel(fn) != "query" || fn.Parent() != nil || fn.Signature.Results().Len() != 1 || len(fn.Params) != 1 {
+			continue
+		}
+		sl, ok := fn.Params[0].Type().Underlying().(*types.Slice)
+		rs, ok2 := fn.Signature.Results().At(0).Type().Underlying().(*types.Slice)
+		if ok && ok2 && c.libNamedIs(sl.Elem(), "query", "SortOption") && c.libNamedIs(rs.Elem(), "query", "SortOption") {
+			norm, optsParam = fn, fn.Params[0]
+		}
+	}
+	if norm == nil {
+		o.add(INFO, "normaliser", "-", "no func([]SortOption) []SortOption in package query")
+		return o.list
+	}
+	pos := relPath(c, norm.Pos())
+	for _, d := range []int64{-2, -1, 0, 1, 2} {
+		d := d
+		te := c.newTagEval()
+		te.maxVisits = 6
+		var stored []int64
+		undec := false
+		te.loadHook = func(l *ssa.UnOp) (aval, bool) {
+			if c.isFieldLoadOf(l, "query", "SortOption", "Direction") {
+				return aval{K: aConst, C: constant.MakeInt64(d)}, true
+			}
+			return aval{}, false
+		}
+		te.callHookEnv = func(call *ssa.Call, val func(ssa.Value) aval) ([]aval, bool) {
+			cc := call.Common()
+			if b, ok := cc.Value.(*ssa.Builtin); ok && b.Name() == "len" && cc.Args[0] == ssa.Value(optsParam) {
+				return []aval{{K: aConst, C: constant.MakeInt64(1)}}, true
+			}
+			return nil, false
+		}
+		te.storeObs = func(st *ssa.Store, v aval, _ func(ssa.Value) aval) {
+			if _, f, n := fieldOfAddr(st.Addr); f == "Direction" && n != nil && c.libNamedIs(n, "query", "SortOption") {
+				if k, ok := constIntOf(v); ok {
+					stored = append(stored, k)
+				} else {
+					undec = true
+				}
+			}
+		}
+		te.Eval(norm, []aval{{}}, 0)
+		want := int64(1)
+		if d < 0 {
+			want = -1
+		}
+		key := fmt.Sprintf("%s/direction %d", c.fname(norm), d)
+		switch {
+		case undec || len(stored) == 0:
+			o.add(UNDECIDED, key, pos, "the direction stored for an input direction of %d is not a constant the evaluator can see", d)
+		default:
+			okAll := true
+			for _, k := range stored {
+				if k != want {
+					okAll = false
+				}
+			}
+			if okAll {
+				o.add(OK, key, pos, "-> %d", want)
+			} else {
+				o.add(VIOLATED, key, pos, "an input direction of %d is normalised to %v, the documented value is %d", d, stored, want)
+			}
+		}
+	}
+	return softenUndecided(o.list)
+}
